@@ -391,8 +391,11 @@ def r01_2(ctx, counts: dict[str, int]) -> RuleResult:
               and stmt_text(n.test) == 'self.reverse_axis']
     if len(branch) != 1:
         raise AnalysisError('XPathAxis.select_with_focus: the reverse_axis branch was not found')
-    for label, stmts, want in (('reverse', branch[0].body, 'desc'),
-                               ('forward', branch[0].orelse, 'asc1')):
+    # assignments hoisted in front of the branch (e.g. a common context.size = len(results))
+    _flat = flat_body(swf_axis.node.body)
+    _pre = [st for st in _flat[:_flat.index(branch[0])] if isinstance(st, ast.Assign)]
+    for label, stmts, want in (('reverse', _pre + branch[0].body, 'desc'),
+                               ('forward', _pre + branch[0].orelse, 'asc1')):
         d, s, node = numbering(swf_axis, stmts, recv)
         res.instances.append(f'XPathAxis.select_with_focus[{label}]: numbering={d} size={s}')
         res.samples.append({'rule': 'R01.2', 'branch': label, 'numbering': d, 'size': s})
